@@ -23,9 +23,11 @@ import (
 )
 
 type polRemedy struct {
-	Kind    string `json:"kind"` // auth | fixed
+	Kind    string `json:"kind"` // auth | fixed | retry
 	Account int    `json:"account,omitempty"`
-	Status  int    `json:"status,omitempty"`
+	Status  int    `json:"status,omitempty"` // fixed: status of the answer
+	From    int    `json:"from,omitempty"`   // retry: status range that asks for a retry
+	To      int    `json:"to,omitempty"`
 	Enabled bool   `json:"enabled"`
 }
 
@@ -39,8 +41,16 @@ type polCase struct {
 func genPolList(t *rapid.T, label string, base int) []polRemedy {
 	n := rapid.IntRange(0, 3).Draw(t, label+"-n")
 	var out []polRemedy
-	auth := false
+	auth, retry := false, false
 	for i := 0; i < n; i++ {
+		// a retry remedy is a no-op on requests; on the way back it adds its header to an early response
+		// whose status lies in its range (the early response runs through the response-side remedies)
+		if !retry && rapid.IntRange(0, 9).Draw(t, label+"-retry") < 3 {
+			retry = true
+			lo := rapid.SampledFrom([]int{400, base, base + 1, 500}).Draw(t, label+"-from")
+			out = append(out, polRemedy{Kind: "retry", From: lo, To: lo + rapid.SampledFrom([]int{0, 1, 99}).Draw(t, label+"-span"), Enabled: rapid.IntRange(0, 9).Draw(t, label+"-en") > 0})
+			continue
+		}
 		// the API-key mechanism memoises its headers per (method, endpoint): one authentication remedy per scope
 		if !auth && rapid.IntRange(0, 9).Draw(t, label+"-kind") < 6 {
 			auth = true
@@ -75,12 +85,26 @@ func (c polCase) remedies(list []polRemedy, prefix string) []sharedConfig.Remedy
 		r := sharedConfig.Remedy{Enabled: p.Enabled, Name: fmt.Sprintf("%s%d", prefix, i)}
 		if p.Kind == "auth" {
 			r.Config.Authentication = &sharedConfig.AuthConfig{Account: sharedConfig.AccountID(fmt.Sprintf("a%d", p.Account))}
+		} else if p.Kind == "retry" {
+			r.Config.Retry = &sharedConfig.RetryConfig{Attempts: 3, InitialCooldownSeconds: 1, CooldownMultiplier: 2,
+				Conditions: sharedConfig.RetryConfigConditions{StatusCode: []sharedConfig.Range[int]{{From: p.From, To: p.To}}}}
 		} else {
 			r.Config.FixedResponse = &sharedConfig.FixedResponseConfig{StatusCode: p.Status}
 		}
 		out = append(out, r)
 	}
 	return out
+}
+
+func (c polCase) retryCovers(status int) bool {
+	for _, l := range [][]polRemedy{c.Endpoint, c.Global} {
+		for _, p := range l {
+			if p.Kind == "retry" && p.Enabled && p.From <= status && status <= p.To {
+				return true
+			}
+		}
+	}
+	return false
 }
 
 // foldPolicy is the statement applied to one execution order of the enabled remedies.
@@ -129,6 +153,7 @@ func TestPolicyFoldThroughDispatcher(t *testing.T) {
 		svc := &services.PoliciesServices{Remedies: services.RemedyPlugins{
 			FixedResponsePlugin: remedies.NewFixedResponsePlugin(clock.NewRealClock()),
 			AuthPlugin:          remedies.NewAuthPlugin(),
+			RetryPlugin:         remedies.NewRetryPlugin(clock.NewRealClock()),
 		}}
 		hdr := map[string]string{"host": "h.com"}
 		if c.AskEarly {
@@ -156,6 +181,11 @@ func TestPolicyFoldThroughDispatcher(t *testing.T) {
 				st, _ := d.vars[actions.StatusCodeActionName].(int)
 				h, _ := parseDump(d.vars[actions.ResponseHeadersActionName])
 				b, _ := bodyOf(d.vars[actions.ResponseBodyActionName])
+				// the early response also runs through the response-side remedies: a retry remedy whose range
+				// holds its status may add its own header (accepted, not demanded); nothing else may change
+				if v, ok := h[remedies.LunarRetryAfterHeaderName]; ok && v != "" && c.retryCovers(early) {
+					delete(h, remedies.LunarRetryAfterHeaderName)
+				}
 				if !gotEarly || st != early || b != "{\"message\": \"GO Lunar\"}" || !eqMap(h, map[string]string{"powered-by": "Lunar Interventions Inc."}) {
 					complaint = fmt.Sprintf("want the first early response (status %d) unchanged, the proxy gets early=%v status=%d body=%q headers=%v", early, gotEarly, st, b, h)
 				}
@@ -197,6 +227,9 @@ func TestPolicyFoldThroughDispatcher(t *testing.T) {
 					seen[k] = v
 				}
 			}
+		}
+		if early != 0 && c.retryCovers(early) {
+			r.Class("early response inside a retry range")
 		}
 		switch {
 		case early != 0:
